@@ -148,6 +148,59 @@ def saveOrder (status : List Status) (g : Graph) (queue : List (Option Nat)) : E
   | .ok s => .ok s.out
   | .error e => .error e
 
+/-! ### the queue with its slots: `objects_to_save[save_pos] = None` / `pop()` and the index-based `for` loop
+
+  `saveQueue` above represents the slot clearing at the end of `_save_` by the test "already written".  The definitions
+  below keep the real bookkeeping: `queue` = `objects_to_save` (mutated while it is iterated), `pos[x]` = `x._save_pos_`.
+  `Props/C16.lean: C16_slots_refine` proves that both loops compute the same result whenever the slots and the
+  positions agree (what every object-level operation of Pony maintains). -/
+
+structure Slots where
+  queue : List (Option Nat)
+  pos : List (Option Nat)       -- `_save_pos_` per object
+  deriving Repr
+
+def posOf (pos : List (Option Nat)) (x : Nat) : Option Nat := (pos[x]?).getD none
+
+/-- the tail of `_save_`:
+    `if save_pos == len(objects_to_save) - 1: objects_to_save.pop()  else: objects_to_save[save_pos] = None;  obj._save_pos_ = None` -/
+def clearSlot (qs : Slots) (x : Nat) : Slots :=
+  match posOf qs.pos x with
+  | none => qs          -- (`objects_to_save[None]` would raise; unreachable: a pending object always has a position)
+  | some p => { queue := if p + 1 = qs.queue.length then qs.queue.dropLast else qs.queue.set p none,
+                pos := qs.pos.set x none }
+
+/-- objects written between two states, in write order -/
+def newObjs (s s' : St) : List Nat := (s'.out.drop s.out.length).filterMap Write.obj?
+
+/-- one top-level `obj._save_()` (this is also `Entity.flush(obj)`): the recursion of `save`, each written object
+    clearing its slot.  The recursion never reads the queue, so clearing after it, in write order, is the same as the
+    interleaved clearing of the code. -/
+def saveTopS (g : Graph) (fuel : Nat) (x : Nat) (r : St × Slots) : Except Err (St × Slots) :=
+  match save g fuel x none r.1 with
+  | .ok (s', _) => .ok (s', (newObjs r.1 s').foldl clearSlot r.2)
+  | .error e => .error e
+
+/-- `for obj in cache.objects_to_save: if obj is not None: obj._save_()` as CPython runs it: index `i` against the
+    current length of the list that the body mutates.  `n` bounds the number of iterations (the list never grows). -/
+def loopS (g : Graph) (fuel : Nat) : Nat → Nat → St × Slots → Except Err (St × Slots)
+  | 0, _, r => .ok r
+  | n + 1, i, r =>
+    if i < r.2.queue.length then
+      match r.2.queue[i]? with
+      | some (some x) =>
+        match saveTopS g fuel x r with
+        | .ok r' => loopS g fuel n (i + 1) r'
+        | .error e => .error e
+      | _ => loopS g fuel n (i + 1) r
+    else .ok r
+
+/-- the object writes of a flush, computed with the real queue bookkeeping -/
+def saveOrderS (status : List Status) (g : Graph) (qs : Slots) : Except Err (List Write × Slots) :=
+  match loopS g (fuelFor status) qs.queue.length 0 ({ status := status, out := [] }, qs) with
+  | .ok r => .ok (r.1.out, r.2)
+  | .error e => .error e
+
 /-! ### a database with immediately enforced foreign keys (parent-must-exist check of INSERT / UPDATE) -/
 
 /-- execute one statement against the set `rows` of existing rows; `none` = the backend refuses (FK violation).
